@@ -34,6 +34,9 @@ def check(ctx):
     from ..rules import shared as _sh
     _sh.check_constructor_store(ctx)
     ctx.floor('A11s', 2, 'value containers of a graph never shared between instances')
+    # memoised answers on the decode path: the key covers every parameter the stored answer depends on
+    from ..rules import persist as _ps
+    _ps.check_decode_memos(ctx)
 
 
 from ..selftest import V  # noqa: E402
